@@ -264,6 +264,8 @@ TrReturn ==
 (* (a generic query message carries a hidden variant for its type parameters; it is skipped on the wire, so it is no sendable name) *)
 RowSet(e) == {<<e.rows[i].name, e.rows[i].ty>> : i \in {j \in 1..Len(e.rows) : e.rows[j].name # "__phantom"}}
 NRows(e) == Cardinality({j \in 1..Len(e.rows) : e.rows[j].name # "__phantom"})
+(* the types a generic contract's tables were asked with (a table is that of one instantiation; a program that is not generic has one) *)
+SchemaInst(e) == IF "inst" \in DOMAIN e THEN e.inst ELSE "GenVal"
 TrSchemas ==
     /\ IsEvent("Schemas")
     /\ stage = "idle"
@@ -273,14 +275,15 @@ TrSchemas ==
            sendable == IF E.part = "contract" THEN UNION {Range(fx.qlists[p]) : p \in DOMAIN fx.qlists}
                        ELSE IF E.part \in DOMAIN fx.qlists THEN Range(fx.qlists[E.part]) ELSE names
        IN Chk("C16", "table_is_keyed_by_the_names_a_client_can_send", l, E.verdict = "ok" => names = sendable)
+    /\ Chk("BIND", "schemas_instantiation_is_known", l, SchemaInst(E) \in {"GenVal", "GenVal2"})
     /\ IF E.part = "contract"
-       THEN /\ Chk("C16", "contract_table_is_the_union_of_its_parts_tables", l, RowSet(E) = EContractResponses(P))
-            /\ Chk("C16", "every_query_appears_once", l, NRows(E) = Cardinality(EContractResponses(P)))
+       THEN /\ Chk("C16", "contract_table_is_the_union_of_its_parts_tables", l, RowSet(E) = EContractResponsesAt(P, SchemaInst(E)))
+            /\ Chk("C16", "every_query_appears_once", l, NRows(E) = Cardinality(EContractResponsesAt(P, SchemaInst(E))))
             /\ Chk("C16", "contract_schema_is_the_any_of_of_its_parts", l, E.anyof = Len(P.parts))
        ELSE /\ Chk("BIND", "schemas_part_exists", l, HasPart(P, E.part))
             /\ Chk("C16", "each_query_maps_to_the_schema_of_its_declared_response_type", l,
-                   RowSet(E) = EResponses(P.parts[PartIx(P, E.part)]))
-            /\ Chk("C16", "every_query_appears_once", l, NRows(E) = Cardinality(EResponses(P.parts[PartIx(P, E.part)])))
+                   RowSet(E) = EResponsesAt(P.parts[PartIx(P, E.part)], SchemaInst(E)))
+            /\ Chk("C16", "every_query_appears_once", l, NRows(E) = Cardinality(EResponsesAt(P.parts[PartIx(P, E.part)], SchemaInst(E))))
     /\ UNCHANGED <<prog, pv, stage, ep, doc, dec, ran, res, origin, fx>>
 
 (* ---- remote helpers (C10) ------------------------------------------------ *)
